@@ -78,6 +78,10 @@ var logCmd = &cobra.Command{
 		if len(files) == 0 {
 			return fmt.Errorf("fatal: your current branch 'main' does not have any commits yet")
 		}
+		if client.Head.Commit == nil {
+			// HEAD names a branch that does not exist although other branches do
+			return fmt.Errorf("fatal: your current branch '%s' does not have any commits yet", client.Head.Reference)
+		}
 
 		// print log
 		if err := walkHistory(client.RootGoitPath, client.Head.Commit.Hash, func(commit *object.Commit) error {
